@@ -152,7 +152,7 @@ theorem arg_deprecation_old_witness :
   decide
 
 /-- … and a current argument of a deprecated field as deprecated, with the field's reason -/
-theorem arg_deprecation_old_witness' :
+theorem arg_deprecation_old_witness_field :
     let f : FieldDef := { name := "f", type := .named "Int" false, dep := some (some "field gone"),
                           args := [{ name := "a", type := .named "Int" false }] }
     let s : Introspect.Schema := { types := [{ name := "Int", kind := .scalar }] }
@@ -175,3 +175,154 @@ theorem directive_arg_old_witness :
   decide
 
 end GqlgenVerif.Introspect.C16
+
+/-! ## Part 2: disabled introspection reveals nothing -/
+namespace GqlgenVerif.IntroGate.C16
+open GqlgenVerif GqlgenVerif.IntroGate
+
+/-- **Disabled ⇒ null with an error.** For every list of collected root fields with distinct response
+keys (i.e. for every document, however `__schema` / `__type` / `_service` are aliased or reached through
+fragments, inline fragments, `@skip` / `@include` and variables — field collection is the C01 model), every
+underlying oracle (whatever the resolvers and the introspection methods would return) and every gated
+field among them: the gate's error is reported at the field's response path; in `data` the field is
+`null`, or `data` itself is `null`; and it *is* `data: null` when the field's type is non-null
+(`_service: _Service!`). -/
+theorem disabled_reveals_nothing (o : Oracle) (rootTy : String) (fields : List (FInfo × Shape))
+    (hwf : fieldsWF fields) (hnd : gatedNoDirs fields = true)
+    (fi : FInfo) (sh : Shape) (hmem : (fi, sh) ∈ fields) (hg : isGated fi.name = true) :
+    (⟨[.key fi.alias], gateMsg fi.name⟩ : Err) ∈ (Impl.execRoot (gateOracle fields o) rootTy fields).2.errs ∧
+    ((Impl.execRoot (gateOracle fields o) rootTy fields).1 = .null ∨
+      ∃ fs, (Impl.execRoot (gateOracle fields o) rootTy fields).1 = .obj fs ∧ (fi.alias, Out.null) ∈ fs ∧
+        fs.map (·.1) = fields.map (·.1.alias)) ∧
+    (sh.nn = true → (Impl.execRoot (gateOracle fields o) rootTy fields).1 = .null) := by
+  have hkeys := C01key o rootTy fields
+  rw [exec_eq_spec _ _ _ hwf]
+  have hB := spec_fields_gated (gateOracle fields o) rootTy [] fields
+    (fun f hf hgf => ⟨gatedNoDirs_mem hnd hf hgf, by
+      simpa using gateOracle_res_gated fields hwf o f.1 f.2 hf hgf⟩) fi sh hmem hg
+  obtain ⟨b1, b2, b3⟩ := hB
+  simp only [List.nil_append] at b1
+  refine ⟨by simpa [Spec.execRoot] using b1, ?_, ?_⟩
+  · cases hs : (Spec.completeFields (gateOracle fields o) rootTy fields []).1 with
+    | none => left; simp [Spec.execRoot, hs]
+    | some os =>
+      right
+      have hobj : (Spec.execRoot (gateOracle fields o) rootTy fields).1 = .obj os := by
+        simp [Spec.execRoot, hs]
+      refine ⟨os, hobj, b2 os hs, ?_⟩
+      rw [exec_eq_spec _ _ _ hwf] at hkeys
+      exact hkeys os hobj
+  · intro hnn
+    simp [Spec.execRoot, b3 hnn]
+where
+  /-- response keys of a non-null root object are the collected keys, in order -/
+  C01key (o : Oracle) (rootTy : String) (fields : List (FInfo × Shape)) :
+      ∀ fs, (Impl.execRoot (gateOracle fields o) rootTy fields).1 = .obj fs →
+        fs.map (·.1) = fields.map (·.1.alias) := by
+    intro fs h
+    by_cases hpos : (Impl.completeFields (gateOracle fields o) rootTy fields [] {}).2.1 > 0
+    · simp [Impl.execRoot, hpos] at h
+    · simp only [Impl.execRoot, hpos, if_false, Out.obj.injEq] at h
+      subst h
+      exact keyOrder (gateOracle fields o) rootTy fields [] {}
+  keyOrder (o : Oracle) (ty : String) : ∀ (fields : List (FInfo × Shape)) (p : Path) (st : St),
+      (Impl.completeFields o ty fields p st).1.map (·.1) = fields.map (·.1.alias)
+    | [], _, _ => by simp [Impl.completeFields]
+    | (fi, sh) :: rest, p, st => by
+      simp only [Impl.completeFields, List.map_cons]
+      rw [keyOrder o ty rest]
+
+/-- **Nothing else is revealed.** With the gate closed the whole response (data, errors, invocations) is
+the same for any two oracles that agree outside the subtrees of the gated root fields: what the
+introspection methods and everything below `__schema` / `__type` / `_service` would have answered cannot
+influence a single byte of it. -/
+theorem disabled_independent_of_introspection_data (o₁ o₂ : Oracle) (rootTy : String)
+    (fields : List (FInfo × Shape)) (hwf : fieldsWF fields) (hnd : gatedNoDirs fields = true)
+    (h : ∀ q, (∀ f ∈ fields, isGated f.1.name = true → ¬ [Seg.key f.1.alias] <+: q) →
+      o₁.res q = o₂.res q ∧ ∀ n, o₁.dir q n = o₂.dir q n) :
+    Impl.execRoot (gateOracle fields o₁) rootTy fields = Impl.execRoot (gateOracle fields o₂) rootTy fields := by
+  rw [exec_eq_spec _ _ _ hwf, exec_eq_spec _ _ _ hwf]
+  unfold Spec.execRoot
+  rw [spec_fields_noninterference fields hwf hnd o₁ o₂ h rootTy fields (fun _ hf => hf)]
+
+/-- the document-level reading: whatever field collection makes of the operation's selection set on the
+    schema with gqlgen's injected roots, the statement holds for the plan it produces -/
+theorem disabled_reveals_nothing_doc (s : GqlgenVerif.Schema) (d : Doc) (vars : Vars) (root : TypeDef)
+    (fuel : Nat) (fields : List (FInfo × Shape))
+    (_hplan : planFields (injectRoots s) (implCollector (injectRoots s) d.frags vars) fuel root d.sels = some fields)
+    (hwf : fieldsWfb fields = true) (hnd : gatedNoDirs fields = true) (o : Oracle)
+    (fi : FInfo) (sh : Shape) (hmem : (fi, sh) ∈ fields) (hg : isGated fi.name = true) :
+    (⟨[.key fi.alias], gateMsg fi.name⟩ : Err) ∈ (Impl.execRoot (gateOracle fields o) root.name fields).2.errs ∧
+    ((Impl.execRoot (gateOracle fields o) root.name fields).1 = .null ∨
+      ∃ fs, (Impl.execRoot (gateOracle fields o) root.name fields).1 = .obj fs ∧ (fi.alias, Out.null) ∈ fs) := by
+  have h := disabled_reveals_nothing o root.name fields (wfbSound fields hwf) hnd fi sh hmem hg
+  refine ⟨h.1, ?_⟩
+  rcases h.2.1 with h1 | ⟨fs, h1, h2, _⟩
+  · exact Or.inl h1
+  · exact Or.inr ⟨fs, h1, h2⟩
+where
+  wfbSound : ∀ fields : List (FInfo × Shape), fieldsWfb fields = true → fieldsWF fields
+    | [], _ => by simp [fieldsWF]
+    | (fi, sh) :: rest, h => by
+      simp only [fieldsWfb, Bool.and_eq_true, List.all_eq_true, bne_iff_ne, ne_eq] at h
+      simp only [fieldsWF]
+      exact ⟨fun g hg => h.1.1 g hg, shapeSound sh h.1.2, wfbSound rest h.2⟩
+  shapeSound : ∀ sh : Shape, sh.wfb = true → sh.WF
+    | .leaf _, _ => by simp [Shape.WF]
+    | .obj _ _ cases, h => by
+      simp only [Shape.wfb] at h
+      simp only [Shape.WF]
+      exact casesSound cases h
+    | .list _ ec e, h => by
+      simp only [Shape.wfb, Bool.and_eq_true, Bool.or_eq_true] at h
+      simp only [Shape.WF]
+      refine ⟨shapeSound e h.1, ?_⟩
+      intro hec
+      subst hec
+      cases e with
+      | leaf b => exact ⟨b, rfl⟩
+      | obj _ _ _ => simp at h
+      | list _ _ _ => simp at h
+  casesSound : ∀ cases : List (String × List (FInfo × Shape)), casesWfb cases = true → casesWF cases
+    | [], _ => by simp [casesWF]
+    | (c, fs) :: rest, h => by
+      simp only [casesWfb, Bool.and_eq_true] at h
+      simp only [casesWF]
+      exact ⟨wfbSound fs h.1, casesSound rest h.2⟩
+
+/-! ### non-vacuity -/
+
+/-- `{ a: __schema { … }  i  s: _service { sdl } }` collected: two gated fields (one non-null) and an
+    ordinary one -/
+def plan : List (FInfo × Shape) :=
+  [({ alias := "a", name := "__schema" }, Shape.obj false false [("__Schema", [])]),
+   ({ alias := "i", name := "i" }, Shape.leaf false)]
+
+def planFed : List (FInfo × Shape) := plan ++ [({ alias := "s", name := "_service" }, Shape.obj true false [("_Service", [])])]
+
+/-- an oracle under which, with introspection enabled, everything answers -/
+def open_ : Oracle := ⟨fun p => if p = [.key "i"] then .val (.leaf "7") else .val (.obj "__Schema"), fun _ _ => .pass⟩
+
+example : fieldsWF plan ∧ gatedNoDirs plan = true := by
+  simp [plan, fieldsWF, Shape.WF, casesWF, gatedNoDirs, isGated, gatedNames]
+
+/-- enabled: the gated position answers (the gate is what makes the difference) -/
+example : (Impl.execRoot open_ "Query" plan).1 = .obj [("a", .obj []), ("i", .leaf "7")] := by
+  simp [Impl.execRoot, Impl.completeFields, Impl.completeField, Impl.runDirs, Impl.completeValue,
+    Impl.completeCases, plan, open_, Shape.isIface, V.isNull, Shape.nn, Out.isNull, St.invoked]
+
+/-- disabled: null with the error, the ordinary field untouched -/
+example : (Impl.execRoot (gateOracle plan open_) "Query" plan).1 = .obj [("a", .null), ("i", .leaf "7")] ∧
+    (Impl.execRoot (gateOracle plan open_) "Query" plan).2.errs = [⟨[.key "a"], "introspection disabled"⟩] := by
+  simp [Impl.execRoot, Impl.completeFields, Impl.completeField, Impl.runDirs, Impl.completeValue,
+    gateOracle, gatedAt, isGated, gatedNames, gateMsg, plan, open_, Shape.isIface, V.isNull, Shape.nn,
+    Out.isNull, St.invoked, St.addErr]
+
+/-- disabled, federation: the non-null `_service` nulls the whole data -/
+example : (Impl.execRoot (gateOracle planFed open_) "Query" planFed).1 = .null := by
+  have hwf : fieldsWF planFed := by simp [planFed, plan, fieldsWF, Shape.WF, casesWF]
+  have hnd : gatedNoDirs planFed = true := by simp [planFed, plan, gatedNoDirs, isGated, gatedNames]
+  exact (disabled_reveals_nothing open_ "Query" planFed hwf hnd { alias := "s", name := "_service" }
+    (Shape.obj true false [("_Service", [])]) (by simp [planFed]) (by decide)).2.2 rfl
+
+end GqlgenVerif.IntroGate.C16
